@@ -62,10 +62,11 @@ type Disk struct {
 	root  string // only files under this directory are tracked
 	files map[string]*diskFile
 	// Decide is consulted before every mutating operation on a tracked file.
-	Decide func(kind string, path string, n int) DiskDecision
-	dead   bool // after a crash: every operation fails, nothing reaches the file
-	Ops    int
-	Counts map[string]int
+	Decide     func(kind string, path string, n int) DiskDecision
+	dead       bool // after a crash: every operation fails, nothing reaches the file
+	writeLocks int
+	Ops        int
+	Counts     map[string]int
 }
 
 var (
@@ -222,6 +223,14 @@ func (d *Disk) Kill() {
 	d.mu.Lock()
 	d.dead = true
 	d.mu.Unlock()
+}
+
+// WriteLocked: some connection on a file of this disk is inside a write
+// transaction (holds the WAL write lock).
+func (d *Disk) WriteLocked() bool {
+	d.mu.Lock()
+	defer d.mu.Unlock()
+	return d.writeLocks > 0
 }
 
 func (d *Disk) Dead() bool {
@@ -501,7 +510,25 @@ func ioShmMap(tls *libc.TLS, pFile uintptr, iPg int32, pgsz int32, ext int32, pp
 }
 
 func ioShmLock(tls *libc.TLS, pFile uintptr, offset int32, n int32, flags int32) int32 {
-	return call[func(*libc.TLS, uintptr, int32, int32, int32) int32](origMethods(pFile).FxShmLock)(tls, origFile(pFile), offset, n, flags)
+	rc := call[func(*libc.TLS, uintptr, int32, int32, int32) int32](origMethods(pFile).FxShmLock)(tls, origFile(pFile), offset, n, flags)
+	// WAL write lock = slot 0 of the shared-memory lock table, taken exclusively
+	// for the duration of a write transaction (SQLITE_SHM_UNLOCK 1, _LOCK 2,
+	// _EXCLUSIVE 8). Tracked so that the scheduler never parks a caller that
+	// holds it: another connection would spin in the busy handler on real time.
+	if rc == 0 && offset == 0 && n >= 1 && flags&8 != 0 {
+		if v, ok := openFiles.Load(pFile); ok {
+			if of := v.(*openFile); of.disk != nil {
+				of.disk.mu.Lock()
+				if flags&2 != 0 {
+					of.disk.writeLocks++
+				} else if flags&1 != 0 && of.disk.writeLocks > 0 {
+					of.disk.writeLocks--
+				}
+				of.disk.mu.Unlock()
+			}
+		}
+	}
+	return rc
 }
 
 func ioShmBarrier(tls *libc.TLS, pFile uintptr) {
